@@ -267,11 +267,37 @@ static const char *toks[] = {"a", "b", "ab", "ba", "aa", "bb", "aba", "aab", "ab
 static const char *words[] = {"", "a", "b", "x", "ab", "ax", "xa", "xx", "aa", "ba", "abx", "aab", "xab", "aba", "xxx", "bax"};
 static const char *dels[] = {":", ":,", ","};
 
+/* qstrreplace sizes its result from the product of the operand lengths: operands around 2^16 bytes put that product around 2^32.
+ * One token at the end of the source, so the true result stays small; NULL with ENOMEM is accepted (the worst-case buffer is 4 GiB) */
+static void t_replbig(void) {
+    const size_t LN[] = {65535, 65536, 65537, 46341};      /* 46341^2 > 2^31 */
+    for (int mi = 0; mi < 2; mi++) for (int a = 0; a < 4; a++) for (int b = 0; b < 4; b++) {
+        if ((LN[a] == 46341) != (LN[b] == 46341)) continue;
+        char key[64]; snprintf(key, sizeof key, "replacebig:%s:%zu:%zu", mi ? "sn" : "tn", LN[a], LN[b]);
+        if (!vc_case("qstrreplace", key)) continue;
+        n_eval++; n_nontrivial++;
+        char *src = malloc(LN[a] + 1), *word = malloc(LN[b] + 1);
+        memset(src, 'a', LN[a]); src[LN[a] - 1] = 'x'; src[LN[a]] = 0; memset(word, 'w', LN[b]); word[LN[b]] = 0;
+        errno = 0; char *r = qstrreplace(mi ? "sn" : "tn", src, "x", word); int e = errno;
+        if (!r) { if (e != ENOMEM) vc_viol("qstrreplace:big-null", "%s returned NULL with errno %d", key, e); else vc_stat_add("replacebig_enomem", 1); }
+        else {
+            size_t want = LN[a] - 1 + LN[b];
+            if (strlen(r) != want || memcmp(r, src, LN[a] - 1) || memcmp(r + LN[a] - 1, word, LN[b])) vc_viol("qstrreplace:big-value", "%s: result of %zu bytes, expected %zu bytes ('a'... followed by the word)", key, strlen(r), want);
+            free(r);
+        }
+        free(src); free(word);
+        if (vc_asan_check()) vc_viol("asan:string", "%s", key);
+        vc_case_end();
+    }
+    vc_sample("qstrreplace(\"tn\" / \"sn\", 65536-byte source with one token, \"x\", 65536-byte word)");
+}
+
 static int replay(const char *key) {
     char part[4][128]; memset(part, 0, sizeof part);
     int np = 0; const char *p = key;
     while (np < 4) { const char *c = strchr(p, ':'); size_t l = c ? (size_t)(c - p) : strlen(p); if (l > 127) l = 127; memcpy(part[np], p, l); part[np][l] = 0; np++; if (!c) break; p = c + 1; }
     char s[64]; unsigned char raw[64]; size_t n;
+    if (!strcmp(part[0], "replacebig")) { t_replbig(); return 0; }
     if (!strcmp(part[0], "replace")) { /* TOK:WORD:hex - WORD may be empty */
         static char tk[16], wd[16]; strcpy(tk, part[1]); strcpy(wd, part[2]); TOK = tk; WORD = wd; n = vc_unhex(part[3], raw); memcpy(s, raw, n); s[n] = 0; t_repl(s); return 0;
     }
@@ -297,6 +323,7 @@ static int worker(int argc, char **argv) {
         for (size_t j = 0; j < sizeof words / sizeof words[0]; j++) { TOK = toks[ti]; WORD = words[j]; gen("abc", 3, 7 + X, t_repl); }
         vc_sample("qstrreplace(mode in sn/sr/tn/tr, src over {a,b,c}^<=5, token %s, word in 16 words up to length 3)", toks[ti]);
     }
+    else if (!strcmp(m, "replacebig")) t_replbig();
     else if (!strcmp(m, "copy")) { gen("ab\x80", 3, 6 + X, t_copy); vc_sample("qstrncpy(dst[size], size in 1..n+2, src, nbytes in 0..n) and overlapping src/dst"); }
     else if (!strcmp(m, "tok")) { for (int i = 0; i < 3; i++) { DEL = dels[i]; gen("ab:,", 4, 8 + X, t_tok); } vc_sample("qstrtok(\"a::b,\", \":,\") fields a | '' | b"); }
     else if (!strcmp(m, "gets")) { gen("ab\n\r", 4, 8 + X, t_gets); vc_sample("qstrgets over \"a\\r\\n\\nb\" with size 2..9 and 32"); }
